@@ -29,7 +29,7 @@ ASSUMPTIONS = [
     "tuples, sets, non-string keys are outside the JSON serializer's domain; int-keyed dicts outside jsonpickle's",
     "structural equality: exact types, NaN == NaN, -0.0 != 0.0, exceptions by type and args",
 ]
-REQUIRED_HOOKS = ["ser_roundtrips", "store_roundtrips", "ident_spellings", "argsid_pairs", "e2e_calls", "mutation_probes", "resend_after_mutation", "ident_sibling_functions"]
+REQUIRED_HOOKS = ["ser_roundtrips", "store_roundtrips", "ident_spellings", "argsid_pairs", "e2e_calls", "mutation_probes", "resend_after_mutation", "ident_sibling_functions", "near_collision_pairs"]
 SERIALIZERS = {"json": "JsonSerializer", "jsonpickle": "JsonPickleSerializer", "pickle": "PickleSerializer"}
 
 
@@ -265,6 +265,26 @@ def run_store(case, V, hooks, distinct):
                             if not same(cv, b5):
                                 V.append({"sig": "store:aliasing:consumer-mutation-visible",
                                           "what": "a consumer's mutation of a resolved value is visible to the next resolve of the same reference (same process)", "witness": wit})
+        # near-collisions: values of the same length that share their beginning and their end and differ in the middle, in every size class
+        for size in (thr + 50, 3_000, 140_000, 270_000):
+            half = size // 2
+            sib = ["s" * half + f"<{j}{rng.randrange(10**6):06d}>" + "s" * half for j in range(2)]
+            wrap = rng.choice([lambda x: x, lambda x: [x], lambda x: {"rows": x}])
+            a_, b_ = wrap(sib[0]), wrap(sib[1])
+            ra, rb = cds.serialize(a_), cds.serialize(b_)
+            hooks["near_collision_pairs"] += 1
+            distinct.append(["store", dom, backend, thr, "near-collision", size])
+            wit = {"size": size, "threshold": thr, "differs_at": half}
+            if cds.is_reference(ra) and ra == rb:
+                V.append({"sig": "store:different-content-same-reference", "what": f"two {size}-character values that differ only in the middle share one reference", "witness": wit})
+            readers = [("serializing instance", cds)] + ([("fresh instance", make_app(backend, td.db(), **conf).client_data_store)] if backend == "sqlite" else [])
+            for who, store in readers:
+                for rr, want in ((ra, a_), (rb, b_)):
+                    try:
+                        if not same(want, store.resolve(rr)):
+                            V.append({"sig": "store:resolved-other-content", "what": f"{who}: a {size}-character value resolved to its near-collision sibling", "witness": wit})
+                    except Exception as e:
+                        V.append({"sig": "store:resolve-raised", "what": f"{who}: {type(e).__name__}: {e}"[:200], "witness": wit})
     hooks["mutation_probes"] += 0
 
 
